@@ -30,6 +30,14 @@
 //!     total mass is (Σ bg)^M = 1 ± δ with δ <= M·K·2^-24; the clip `min(1.0)` lowers an entry by
 //!     at most that: `delta = |(Σ bg)^M - 1|` is added to the margin of the lower bound when the
 //!     p-value is the clipped value 1.0, and nowhere else.
+//!
+//! Alternative entry points (`alt`; oracle only, case line and answer unchanged): on the cases whose
+//! matrix hash is even the distribution is also built through `ScoreDistribution::from(&pssm)`,
+//! `from(pssm)` by value, `Into`, and cloned; every observable and every query must answer like the
+//! `to_score_distribution()` object of the main clause; `min_pvalue()` is the last positive entry of
+//! `sf()`; `score(p)` is always `unscale(k)` of a table index; `Distribution::sample` (seeded StdRng,
+//! the constant generators giving p = 0 and p = 1, `Rng::sample`, `sample_iter`) returns `score(p)`
+//! of the p drawn.
 use crate::out::*;
 use crate::rng::Rng;
 use crate::Cfg;
@@ -39,6 +47,12 @@ use lightmotif::abc::Dna;
 use lightmotif::dense::DenseMatrix;
 use lightmotif::pwm::dist::ScoreDistribution;
 use lightmotif::pwm::ScoringMatrix;
+use rand::distributions::Distribution;
+use rand::distributions::Uniform;
+use rand::rngs::mock::StepRng;
+use rand::rngs::StdRng;
+use rand::Rng as _;
+use rand::SeedableRng;
 
 type K = <Dna as Alphabet>::K;
 const NK: usize = 5;
@@ -396,6 +410,106 @@ fn oracle(case: &Case, o: &Obs, stats: &mut Vec<&'static str>) -> Result<(), Str
     Ok(())
 }
 
+// ---------------------------------------------------------------------- alternative entry points
+
+/// hash of the matrix and background of the case (the `sc` answers on the line are not part of it)
+fn case_hash(case: &Case) -> u64 {
+    fnv_nats(case.bg.iter().map(|x| *x as usize).chain(case.cells.iter().flatten().map(|x| *x as usize)))
+}
+
+/// everything the main clause observed, asked again of `d`
+fn same_answers(name: &str, d: &ScoreDistribution<Dna>, o: &Obs) -> Result<(), String> {
+    let b64 = |x: f64| show64(x);
+    let b32 = |x: f32| show32(x);
+    if d.sf().len() != o.sf.len() || d.sf().iter().zip(&o.sf).any(|(x, y)| b64(*x) != b64(*y)) {
+        return Err(format!("{}: sf() differs from the one of to_score_distribution()", name));
+    }
+    let u0 = d.unscale(0);
+    if b32(u0) != b32(o.u0) || d.scale(u0 + 1.0) != o.sfac {
+        return Err(format!("{}: unscale(0) / scale(unscale(0)+1) = {:e} / {} but {:e} / {}", name, u0, d.scale(u0 + 1.0), o.u0, o.sfac));
+    }
+    if b32(d.score(1.0)) != b32(o.smin) || b32(d.score(0.0)) != b32(o.smax) || b64(d.min_pvalue()) != b64(o.minp) {
+        return Err(format!("{}: score(1) / score(0) / min_pvalue() differ", name));
+    }
+    for (s, p) in &o.pv {
+        if b64(d.pvalue(*s)) != b64(*p) {
+            return Err(format!("{}: pvalue({:e}) = {:e} but to_score_distribution() answered {:e}", name, s, d.pvalue(*s), p));
+        }
+    }
+    for (p, s, _) in &o.sc {
+        if b32(d.score(*p)) != b32(*s) {
+            return Err(format!("{}: score({:e}) = {:e} but to_score_distribution() answered {:e}", name, p, d.score(*p), s));
+        }
+    }
+    Ok(())
+}
+
+fn alt(case: &Case, o: &Obs) -> Result<(), String> {
+    let bg = case.background().ok_or("background rejected on the second construction")?;
+    let rows: Vec<[f32; NK]> = case.cells.iter().map(|r| std::array::from_fn(|i| f32::from_bits(r[i]))).collect();
+    let pssm = ScoringMatrix::<Dna>::new(bg, DenseMatrix::<f32, K>::from_rows(rows));
+    let main = pssm.to_score_distribution();
+    same_answers("to_score_distribution() again", &main, o)?;
+    same_answers("ScoreDistribution::from(&pssm)", &ScoreDistribution::<Dna>::from(&pssm), o)?;
+    same_answers("ScoreDistribution::from(pssm) by value", &ScoreDistribution::<Dna>::from(pssm.clone()), o)?;
+    let into: ScoreDistribution<Dna> = (&pssm).into();
+    same_answers("(&pssm).into()", &into, o)?;
+    let d = main.clone();
+    same_answers("clone()", &d, o)?;
+    // queries in the opposite order on the clone: an answer does not depend on what was asked before
+    for (p, s, _) in o.sc.iter().rev() {
+        if show32(d.score(*p)) != show32(*s) {
+            return Err(format!("score({:e}) asked again after other queries = {:e}, first answer {:e}", p, d.score(*p), s));
+        }
+    }
+    for (s, p) in o.pv.iter().rev() {
+        if show64(d.pvalue(*s)) != show64(*p) {
+            return Err(format!("pvalue({:e}) asked again after other queries = {:e}, first answer {:e}", s, d.pvalue(*s), p));
+        }
+    }
+    // min_pvalue() is the p-value of the largest attainable score: the last positive entry of the table
+    let last_pos = o.sf.iter().rev().find(|x| **x > 0.0).copied().unwrap_or(o.sf[0]);
+    if show64(o.minp) != show64(last_pos) {
+        return Err(format!("min_pvalue() = {:e} but the last positive entry of sf() is {:e}", o.minp, last_pos));
+    }
+    // score(p) is unscale(k) of a table index (k may be one past the largest attainable score when p is
+    // below min_pvalue(), and below the smallest one when the total mass is below p < 1)
+    let grid: std::collections::HashSet<String> = (0..=o.sf.len() as i32).map(|k| show32(d.unscale(k))).collect();
+    let on_grid = |what: &str, p: f64, s: f32| -> Result<(), String> {
+        if !grid.contains(&show32(s)) {
+            return Err(format!("{}: {:e} (p = {:e}) is not unscale(k) of a table index", what, s, p));
+        }
+        Ok(())
+    };
+    for (p, s, _) in &o.sc {
+        on_grid("score(p)", *p, *s)?;
+    }
+    // Distribution::sample: the score of the p drawn from U[0,1] by the generator given
+    let unit = Uniform::new_inclusive(0.0f64, 1.0);
+    let mut rng = StdRng::seed_from_u64(case_hash(case));
+    for it in 0..12 {
+        let mut twin = rng.clone();
+        let p: f64 = unit.sample(&mut twin);
+        let s: f32 = match it % 3 {
+            0 => Distribution::sample(&d, &mut rng),
+            1 => rng.sample(&d),
+            _ => (&d).sample_iter(&mut rng).next().unwrap(),
+        };
+        if show32(s) != show32(d.score(p)) {
+            return Err(format!("Distribution::sample = {:e} but the generator drew p = {:e} and score(p) = {:e}", s, p, d.score(p)));
+        }
+        on_grid("Distribution::sample", p, s)?;
+    }
+    for (name, mut g, want) in [("all-zero generator (p = 0)", StepRng::new(0, 0), o.smax), ("all-ones generator (p = 1)", StepRng::new(u64::MAX, 0), o.smin)] {
+        let p: f64 = unit.sample(&mut g.clone());
+        let s: f32 = d.sample(&mut g);
+        if show32(s) != show32(d.score(p)) || ((p == 0.0 || p == 1.0) && show32(s) != show32(want)) {
+            return Err(format!("Distribution::sample with the {}: {:e}, p = {:e}, score(p) = {:e}", name, s, p, d.score(p)));
+        }
+    }
+    Ok(())
+}
+
 // ------------------------------------------------------------------------------------------ exec
 
 /// returns (case line with the `sc` answers filled in, answer, oracle, nontrivial, stats)
@@ -417,7 +531,14 @@ fn exec_case(mut case: Case) -> (String, String, Option<Result<(), String>>, boo
                 head.push(show64(o.sf[j * (o.sf.len() - 1) / 15]));
             }
             let ans = format!("ok {} | {}", head.join(" "), o.answers.join(" "));
-            let verdict = oracle(&case, &o, &mut stats);
+            let mut verdict = oracle(&case, &o, &mut stats);
+            if verdict.is_ok() && case_hash(&case) % 2 == 0 {
+                stats.push("alternative-entry-points");
+                verdict = match guarded(|| alt(&case, &o)) {
+                    Ok(r) => r.map_err(|e| format!("alternative entry point: {}", e)),
+                    Err(()) => Err("alternative entry point: panic".into()),
+                };
+            }
             let mut distinct: Vec<u64> = o.sf.iter().map(|x| x.to_bits()).collect();
             distinct.dedup();
             let nontrivial = case.m >= 2 && distinct.len() >= 3 && o.sfac > 0 && o.pv.iter().any(|(_, p)| *p > 0.0 && *p < 1.0);
